@@ -197,7 +197,12 @@ def expected_free(op, ts, dr_vals):
     """what the member looks like before any restriction, from the recorded draws (used only to CLASSIFY a loss)"""
     if op == "jitter_timestamps":
         return sorted(t + d for t, d in zip(ts, dr_vals))
-    return list(ts)        # shuffle keeps first and last
+    if not ts:
+        return []
+    d, out = diffs(ts), [ts[0]]
+    for i in dr_vals:
+        out.append(out[-1] + d[i])
+    return out
 
 
 def judge_ts(op, ts, s, e, p, r):
@@ -214,7 +219,7 @@ def judge_ts(op, ts, s, e, p, r):
 
 def judge_group(op, keys, tss, s, e, p, r, draws):
     kind = "TsGroup"
-    free = [expected_free(op, ts, d) for ts, d in zip(tss, draws)] if len(draws) == len(tss) else [list(t) for t in tss]
+    free = [expected_free(op, ts, d) for ts, d in zip(tss, draws)] if (not support_kept(op, p)) and len(draws) == len(tss) else [list(t) for t in tss]
     degenerate = [len(set(f)) <= 1 for f in free]
     if r[0] == "exc":
         key = {"op": op, "kind": kind, "part": "exception", "exception": r[1]}
@@ -237,18 +242,16 @@ def judge_group(op, keys, tss, s, e, p, r, draws):
                 for x in out:
                     if x in lost:
                         lost.remove(x)
+                other = free[1 - i] if len(tss) == 2 else []
                 if degenerate[i]:
                     key["pattern"] = "member_single_distinct_timestamp"
-                elif len(tss) == 2 and free[1 - i] and free[i] and lost and \
-                        (free[i][-1] == free[1 - i][0] or free[1 - i][-1] == free[i][0] or
-                         any(f[0] - 1000 <= x < f[0] for f in free if f for x in lost)) and \
-                        all(any(f[0] - 1000 <= x < f[0] for f in free if f) for x in lost):
+                elif lost and len(set(other)) > 1 and free[i][-1] == other[0] and all(other[0] - 1000 <= x < other[0] for x in lost):
                     key["pattern"] = "two_members_touching_supports"
             v.append({"key": key, "what": "%s(TsGroup) member %d: %s" % (op, keys[i], what), "impl": outs})
     if kept:
         if gs != [(s, e)]:
             v.append({"key": {"op": op, "kind": kind, "part": "support"}, "what": "%s(TsGroup): the time support is not kept" % op, "impl": gs, "expected": [(s, e)]})
-        elif any(ms != gs for ms in msups):
+        elif any(ms != gs for ms, out in zip(msups, outs) if out):
             v.append({"key": {"op": op, "kind": kind, "part": "member_support"}, "what": "%s(TsGroup): a member's time support differs from the group's" % op, "impl": msups})
     return v
 
